@@ -11,6 +11,8 @@ from simkit import fnlib
 from simkit.core import HarnessError, Machine, RunResult, Trace, canon, diff_values, digest_of, sig_matches, violation
 from simkit.rng import SimRng
 
+POISON = 13.0
+
 ARG_FLAGS = [
     "include_variables", "include_parameters", "include_derived_parameters", "include_derived_variables",
     "include_reactions", "include_surrogate_variables", "include_surrogate_fluxes", "include_readouts",
@@ -91,7 +93,12 @@ class Exec:
 
         case = self.case
         self.model = view_model(case["model"])
-        sim = Simulator(self.model, integrator=Scipy)
+        # the real Scipy integrator behind a content-keyed fault wrapper: integration fails
+        # while the parameter c holds the poison value (only `continue` ops with fail=True set it)
+        from simkit import integrators
+
+        sim = Simulator(self.model, integrator=integrators.FaultyFactory("scipy", poison=(POISON,)))
+        del Scipy
         p = dict(self.model.get_parameter_values())
         self.seg_params: list[dict] = []
         T = 0.0  # noqa: N806
@@ -278,6 +285,20 @@ class Exec:
         if op["op"] == "continue":
             # the simulator carries on AFTER the result was taken; the result the user holds
             # is a finished object and must keep answering as before
+            if op.get("fail"):
+                # the continuation FAILS (solver gives up): nothing may be added, and the results
+                # the user already holds must not notice
+                old = float(self.model.get_parameter_values()["c"])
+                try:
+                    self.sim.update_parameter("c", POISON)
+                    self.sim.simulate(self.T_end + float(op["dt"]), steps=2)
+                except Exception as e:  # noqa: BLE001
+                    self.trace.add("continue_fail", "exc", type(e).__name__)
+                finally:
+                    self.sim.update_parameter("c", old)
+                self.counters["fault_fired:continuation_failed_after_result_taken"] += 1
+                self.trace.add("continue_fail", len(self.sim.variables or []))
+                return
             try:
                 p_now = {k: float(v) for k, v in self.model.get_parameter_values().items()}
                 self.T_end += float(op["dt"])
@@ -440,6 +461,8 @@ def gen_case(rng: SimRng, tier: str) -> dict:  # noqa: ARG001, C901, PLR0912
             continue
         if r.random() < 0.08:
             ops.append({"op": "continue", "dt": r.choice([0.5, 1.0])})
+            if r.random() < 0.3:
+                ops[-1]["fail"] = True
             if r.random() < 0.6:
                 ops.append({"op": "take_second"})
             continue
